@@ -70,6 +70,10 @@ TIME_TYPES = ("core::time::Duration", "std::time::Instant", "std::time::SystemTi
 
 def classify_call(cs):
     """returns (kind, callee-name) when the call site is a panic/termination source, else None"""
+    # `x[..]` (RangeFull) cannot be out of bounds
+    if cs.fn in ("core::ops::index::Index::index", "core::ops::index::IndexMut::index_mut") and len(cs.gargs) > 1 \
+            and cs.gargs[1] == "core::ops::range::RangeFull":
+        return None
     for cand in (cs.res, cs.fn):
         if cand is None:
             continue
